@@ -164,7 +164,9 @@ def check_node_line(files, line, mnemonics):
             if sl in REG_NAMES:
                 if REG_NAMES[sl] != int(v):
                     return f"node {kind}: operand {key}={v} located on text {sl!r}"
-            elif sl.lower() not in mnemonics and not re.fullmatch(r"[-0-9A-Za-z_']+", sl):
+            elif sl.lower() not in mnemonics and not re.fullmatch(r"[-0-9A-Za-z_']+|'(\\.|[^'\\])*'", sl):
+                # (a synthetic operand of a pseudo-instruction sits on the token that follows the
+                # mnemonic: another operand, an immediate, a character literal with or without escapes)
                 return f"node {kind}: operand {key} located on {sl!r}"
         elif key in ("it", "dt"):
             if sl.lower().lstrip(".") not in mnemonics and not sl.startswith("."):
